@@ -748,7 +748,7 @@ def broadcast_shape(I, s1, s2):
 
 
 def arr_elem(v, idx, shape):
-    if isinstance(v, Arr):
+    if isinstance(v, (Arr, _Frozen)):
         if v.shape == ():
             return v.fn(())
         if isinstance(v.shape, tuple) and isinstance(shape, tuple) and len(v.shape) == len(shape):
@@ -760,17 +760,30 @@ def arr_elem(v, idx, shape):
     return v
 
 
+class _Frozen:
+    """the contents of an array at this moment (arrays are mutable; lazily evaluated results must not see later writes)"""
+
+    def __init__(self, a):
+        self.shape, self.fn, self.dtype, self.unit = a.shape, a.fn, a.dtype, a.unit
+
+
+def _freeze(v):
+    return _Frozen(v) if isinstance(v, Arr) else v
+
+
 def arr_binary(I, f, a, b, dtype):
     shape = broadcast_shape(I, arr_shape_of(a), arr_shape_of(b))
     cache = {}
+    res_dtype = dtype or result_dtype(a, b)
+    ua, ub = getattr(a, 'unit', None), getattr(b, 'unit', None)
+    a, b = _freeze(a), _freeze(b)
 
     def fn(idx):
         key = tuple(x.e.get_id() if isinstance(x, Sym) else x for x in idx)
         if key not in cache:
             cache[key] = f(arr_elem(a, idx, shape), arr_elem(b, idx, shape))
         return cache[key]
-    r = Arr(shape, fn, dtype or result_dtype(a, b))
-    ua, ub = getattr(a, 'unit', None), getattr(b, 'unit', None)
+    r = Arr(shape, fn, res_dtype)
     r.unit = ua or ub
     return r
 
@@ -793,11 +806,12 @@ def result_dtype(a, b):
 
 def arr_map(I, f, a, dtype=None):
     cache = {}
+    afn = a.fn
 
     def fn(idx):
         key = tuple(x.e.get_id() if isinstance(x, Sym) else x for x in idx)
         if key not in cache:
-            cache[key] = f(a.fn(idx))
+            cache[key] = f(afn(idx))
         return cache[key]
     r = Arr(a.shape, fn, dtype or a.dtype)
     r.unit = a.unit
